@@ -149,6 +149,8 @@ def _run_real_(case, variant, kw, pinned):
             kw["cg"] = _kwargs(case, pinned)["cg"]
         if variant == "trust":
             kw2 = {"maxiter": kw.get("maxiter")}
+            if case.get("trust_radius") is not None:
+                kw2["initial_trust_radius"] = float(Fraction(case["trust_radius"]))
             if kw.get("absdelta") is not None:
                 kw2["absdelta"] = kw["absdelta"]
             r = opt._trust_ncg(fun, x0, **kw2)
@@ -156,7 +158,10 @@ def _run_real_(case, variant, kw, pinned):
             f = opt._newton_cg if variant == "eager" else opt._static_newton_cg
             r = f(fun, x0, **kw)
         x = [float(t) for t in np.array(flat(r.x))]
-        return {"x": x, "status": int(r.status), "fun": float(r.fun), "nit": int(r.nit)}
+        out = {"x": x, "status": int(r.status), "fun": float(r.fun), "nit": int(r.nit)}
+        if variant != "trust" and r.nfev is not None:
+            out["nfev"] = int(r.nfev)
+        return out
     except Exception as e:
         name = type(e).__name__
         if "ValueError" in str(e) or name in ("XlaRuntimeError", "JaxRuntimeError"):
@@ -398,7 +403,135 @@ def _gen_case(rng, quick, modelled=True):
         # into its halving / reset / abort branches
         case["cgfake"] = {"scale": rs(rng.choice([-1.0, -0.25, 64.0, 1024.0, 1e6, 0.0, 1.0])),
                           "info": rng.choice([0, 0, 0, 0, 3, -1])}
+    if modelled and family != "flat" and rng.random() < 0.3:
+        # near-tie stream: the k-th trial of the line search lands just above / just below the start energy
+        sstar = _crossing_scale(case)
+        if sstar is not None:
+            delta = rng.choice([1e-2, 1e-3, 1e-4]) * rng.choice([1, 1, -1])
+            k = rng.choice([0, 0, 1, 2, 4])
+            case["cgfake"] = {"scale": rs(sstar * (1 + delta) * 2 ** k), "info": 0}
+            case["neartie"] = True
     return case
+
+
+def _pyval(poly, x):
+    tot = 0.0
+    for m in poly:
+        t = float(Fraction(m["c"]))
+        for xi, k in zip(x, m["e"]):
+            t *= xi ** k
+        tot += t
+    return tot
+
+
+def _pygrad(poly, x):
+    g = [0.0] * len(x)
+    for m in poly:
+        c = float(Fraction(m["c"]))
+        for i, ki in enumerate(m["e"]):
+            if ki:
+                t = c * ki
+                for j, (xj, kj) in enumerate(zip(x, m["e"])):
+                    t *= xj ** (kj - 1 if j == i else kj)
+                g[i] += t
+    return g
+
+
+def _crossing_scale(case):
+    """generator helper: step length s* > 0 along -g with f(x0 - s* g) = f(x0) (energy crosses the start level)"""
+    x0 = [float(Fraction(v)) for v in case["x0"]]
+    g = _pygrad(case["poly"], x0)
+    if sum(v * v for v in g) < 1e-12:
+        return None
+    f0 = _pyval(case["poly"], x0)
+    phi = lambda s: _pyval(case["poly"], [a - s * b for a, b in zip(x0, g)]) - f0
+    hi = 1e-3
+    while phi(hi) <= 0 and hi < 1e6:
+        hi *= 2
+    if hi >= 1e6:
+        return None
+    lo = hi / 2 if phi(hi / 2) <= 0 else 0.0
+    if lo == 0.0:
+        # phi(hi) > 0 already for tiny hi: find a decreasing stretch first
+        lo = hi / 1024
+        if phi(lo) > 0:
+            return None
+    for _ in range(80):
+        mid = 0.5 * (lo + hi)
+        if phi(mid) <= 0:
+            lo = mid
+        else:
+            hi = mid
+    return 0.5 * (lo + hi)
+
+
+def _gen_reset_case(rng):
+    """targeted: the first six trials fail (fake CG oracle) and the line search succeeds at reset trial 6, 7 or 8, or aborts"""
+    target = rng.choice(["t6", "t7", "t7", "t8", "t8", "abort"])
+    for _ in range(300):
+        family = rng.choice(["doublewell", "doublewell", "convex"])
+        n = rng.randint(1, 2)
+        poly = _gen_poly(rng, n, family)
+        x0 = [Fraction(rng.randint(-24, 24), 16) for _ in range(n)]
+        case = {"op": "ncg", "family": family, "poly": poly, "x0": [rs(v) for v in x0], "split": 0,
+                "miniter": None, "maxiter": rng.choice([1, 2]), "absdelta": None, "xtol": rs(1e-5), "trust": True,
+                "cg": {"resnorm": rs(1e-4), "miniter": None, "maxiter": None}}
+        xf = [float(v) for v in x0]
+        g = _pygrad(poly, xf)
+        gg = sum(v * v for v in g)
+        if gg < 1e-6:
+            continue
+        eps = 1e-5
+        gp = _pygrad(poly, [a + eps * b for a, b in zip(xf, g)])
+        gm = _pygrad(poly, [a - eps * b for a, b in zip(xf, g)])
+        curv = sum(b * (p - m) / (2 * eps) for b, p, m in zip(g, gp, gm))
+        if abs(curv) < 1e-6 * gg:
+            continue
+        t = gg / abs(curv)
+        sstar = _crossing_scale(case)
+        if sstar is None:
+            continue
+        r = sstar / t
+        okr = {"t6": r > 1.05, "t7": 0.525 < r < 0.95, "t8": 0.2625 < r < 0.475, "abort": r < 0.2375}[target]
+        if not okr:
+            continue
+        f0 = _pyval(poly, xf)
+        asc = all(_pyval(poly, [a + b / 2 ** k for a, b in zip(xf, g)]) > f0 * (1 + 1e-6) + 1e-9 for k in range(6))
+        if asc:
+            case["cgfake"] = {"scale": "-1", "info": 0}
+        elif sstar * 40 < 1e6:
+            case["cgfake"] = {"scale": rs(float(2 ** 20)), "info": 0}
+            if not all(_pyval(poly, [a - 2.0 ** (20 - k) * b for a, b in zip(xf, g)]) > f0 + 1e-6 for k in range(6)):
+                continue
+        else:
+            continue
+        case["reset_target"] = target
+        return case
+    return None
+
+
+def _gen_trust_case(rng):
+    """targeted (1-D): the trust-region step is slightly uphill although a decrease is predicted: rho in (-0.12, -0.02)"""
+    for _ in range(200):
+        poly = _gen_poly(rng, 1, "doublewell")
+        x0 = Fraction(rng.randint(-40, 40), 16)
+        xf = [float(x0)]
+        g = _pygrad(poly, xf)[0]
+        if abs(g) < 1e-3:
+            continue
+        eps = 1e-5
+        H = (_pygrad(poly, [xf[0] + eps])[0] - _pygrad(poly, [xf[0] - eps])[0]) / (2 * eps)
+        f0 = _pyval(poly, xf)
+        for k in range(40):
+            r = 0.05 * 1.15 ** k
+            step = (-g / H) if (H > 0 and abs(g / H) < r) else (-r if g > 0 else r)
+            pred = -(g * step + 0.5 * H * step * step)
+            actual = f0 - _pyval(poly, [xf[0] + step])
+            if pred > 1e-9 and -0.12 < actual / pred < -0.02:
+                return {"op": "ncg", "family": "doublewell", "poly": poly, "x0": [rs(x0)], "split": 0, "miniter": None,
+                        "maxiter": 1, "absdelta": None, "xtol": rs(1e-5), "cg": None, "trust": True,
+                        "trust_radius": rs(r), "trust_target": True}
+    return None
 
 
 def _gen_trig(rng):
@@ -445,6 +578,12 @@ def _check(ctx, cases):
     for c in cases:
         ctx.stat("family=" + c.get("family", "?"))
         ctx.stat("n=%d" % len(c["x0"]))
+        if c.get("neartie"):
+            ctx.stat("neartie_trial")
+        if c.get("trust_target"):
+            ctx.stat("trust_slightly_uphill_trial")
+        if c.get("reset_target"):
+            ctx.stat("reset_target=" + c["reset_target"])
         ctx.case(c, _nontrivial(c))
         m = mo.get(id(c))
         if m is not None:
@@ -468,8 +607,10 @@ def _check(ctx, cases):
                         if "error" in real or "error" in mm:
                             ok = real.get("error") == mm.get("error")
                         else:
+                            ntrials = 1 + sum(len(it["trials"]) for it in m["trace"] if it is not None)
                             ok = (real["status"], real["nit"]) == (mm["status"], mm["nit"]) and _close(real["x"], mm["x"]) \
-                                and abs(real["fun"] - _fl(mm["fun"])) <= 1e-7 * (abs(real["fun"]) + 1.0)
+                                and abs(real["fun"] - _fl(mm["fun"])) <= 1e-7 * (abs(real["fun"]) + 1.0) \
+                                and real.get("nfev", ntrials) == ntrials      # total number of line-search trials
                         if not ok:
                             ctx.disagree(c, {variant: real}, {variant: mm},
                                          f"C17 {variant} Newton-CG: real minimiser vs Lean model (class T)")
@@ -481,10 +622,18 @@ def _check(ctx, cases):
 
 def run(ctx):
     cases = _load_corpus()
-    for _ in range(ctx.n(14, 50)):
+    for _ in range(ctx.n(11, 50)):
         cases.append(_gen_case(ctx.rng, ctx.quick, modelled=True))
-    for _ in range(ctx.n(5, 30)):
+    for _ in range(ctx.n(4, 30)):
         cases.append(_gen_case(ctx.rng, ctx.quick, modelled=False))
+    for _ in range(ctx.n(5, 24)):
+        c = _gen_reset_case(ctx.rng)
+        if c is not None:
+            cases.append(c)
+    for _ in range(ctx.n(3, 16)):
+        c = _gen_trust_case(ctx.rng)
+        if c is not None:
+            cases.append(c)
     for _ in range(ctx.n(2, 20)):
         cases.append(_gen_trig(ctx.rng))
     B = 40
